@@ -347,6 +347,7 @@ func TestC03(t *testing.T) {
 	units = append(units, exclusionUnits()...)
 	units = append(units, shortcutUnits()...)
 	units = append(units, allocateUnits()...)
+	units = append(units, readFaultUnits()...)
 	units = append(units, defaultsUnits()...)
 	units = append(units, historyUnits()...)
 	units = append(units, nonNumUnits()...)
